@@ -390,6 +390,56 @@ func TestVP_C13_cosi(t *testing.T) {
 			}
 			classes = append(classes, "mask-bit-added")
 		}
+		// the same value that was just used for the honest run (challenge,
+		// responses, verification) gets its exported Mask edited in place, as a
+		// decoder or a caller may do: verification must judge the mask it sees now
+		{
+			saved := cosi.Mask
+			edits := []uint64{}
+			if k >= 2 {
+				edits = append(edits, saved&^(uint64(1)<<uint(victim)))
+			}
+			for o := 0; o < c.n; o++ {
+				if saved&(uint64(1)<<uint(o)) == 0 {
+					edits = append(edits, saved|uint64(1)<<uint(o))
+					break
+				}
+			}
+			if c.n < 64 {
+				edits = append(edits, saved|uint64(1)<<uint(c.n))
+			}
+			for _, m := range edits {
+				cosi.Mask = m
+				if err := vpC13FullVerify(t, "mask edited in place", cosi, c.publics, 1, c.msg); err == nil {
+					t.Fatalf("FullVerify accepted mask %x on a value whose signature was made by %x (mask edited after use)", m, saved)
+				}
+				classes = append(classes, "mask-edited-in-place")
+			}
+			cosi.Mask = saved
+			if err := vpC13FullVerify(t, "mask restored", cosi, c.publics, k, c.msg); err != nil {
+				t.Fatalf("FullVerify rejected the honest signature after its mask was edited and restored: %v", err)
+			}
+		}
+		// a valid share offered under a signer index the mask does not name (below,
+		// between or above the masked ones, negative included) never verifies
+		{
+			probe := c.build(t)
+			for _, j := range []int{-1, 0, victim - 1, victim + 1, c.n - 1, c.n, 63, 64} {
+				if j >= 0 && j < 64 && c.mask&(uint64(1)<<uint(j)) != 0 {
+					continue
+				}
+				for _, i := range c.idx {
+					var verr error
+					if p := vpCatch(func() { verr = probe.VerifyResponse(c.publics, j, responses[i], c.msg) }); p != nil {
+						t.Fatalf("VerifyResponse panicked for signer index %d: %v", j, p)
+					}
+					if verr == nil {
+						t.Fatalf("VerifyResponse accepted signer %d's share under index %d, which mask %x does not name", i, j, c.mask)
+					}
+				}
+				classes = append(classes, "share-under-unmasked-index")
+			}
+		}
 		if k >= 2 {
 			removed := &CosiSignature{Signature: final, Mask: c.mask &^ (uint64(1) << uint(victim))}
 			if err := vpC13FullVerify(t, "mask bit removed", removed, c.publics, 1, c.msg); err == nil {
